@@ -61,11 +61,18 @@ DOMAINS = {
     'pair': [(a, b) for a in (1, 2, None) for b in (1, 2, None)],
     'tuple-item': [1, 2, 3],
     'plain-item': [1, 2, 3],
+    # two keys of types that are neither "basic" nor callable
+    'pairx': [(a, b) for a in (decimal.Decimal(1), decimal.Decimal(2), None)
+              for b in (D(2020, 1, 1), D(2021, 6, 1), None)],
+    'pairbool': [(a, b) for a in (False, True, None)
+                 for b in (b'a', b'b', None)],
 }
 
 SPECS = {
     'int': ['k', 'k/cmp', 'k/cmp/asc', 'k/cmp/desc', 'EXPR:k',
-            'EXPR:k/cmp/desc', 'NOSORT'],
+            'EXPR:k/cmp/desc', 'NOSORT',
+            # X: = the sequence is given as an expression ("seq")
+            'X:NOSORT', 'X:k', 'X:EXPR:k'],
     'str': ['k', 'k/cmp', 'k/cmp/desc', 'k/nocase', 'k/nocase/asc',
             'k/nocase/desc', 'EXPR:k/nocase'],
     'float': ['k', 'k/cmp/desc'],
@@ -78,6 +85,8 @@ SPECS = {
              'k2,k', 'EXPR:k,k2'],
     'tuple-item': ['', 'sequence-item'],
     'plain-item': ['', 'sequence-item'],
+    'pairx': ['k,k2', 'k/cmp/desc,k2/cmp/asc', 'k2,k'],
+    'pairbool': ['k,k2', 'k/cmp/asc,k2/cmp/desc', 'k2/cmp/desc,k'],
 }
 
 ABSENT = object()
@@ -104,7 +113,7 @@ def build(ktype, syms, mapping):
             keys.append((v,))
             continue
         attrs = {'id': i}
-        if ktype == 'pair':
+        if ktype in ('pair', 'pairx', 'pairbool'):
             comp = []
             for name, x in zip(('k', 'k2'), v):
                 attrs[name] = x
@@ -133,6 +142,7 @@ def build(ktype, syms, mapping):
 
 def parse_spec(spec):
     """-> [(component index, nocase?, desc?)]"""
+    spec = spec[2:] if spec.startswith('X:') else spec
     spec = spec[5:] if spec.startswith('EXPR:') else spec
     if spec in ('', 'sequence-item'):
         return [(0, False, False)]
@@ -171,6 +181,9 @@ def template(spec, mapping, reverse, batch, ktype):
     key = (spec, mapping, reverse, batch, ktype == 'plain-item')
     t = _t.get(key)
     if t is None:
+        seqref = 'seq'
+        if spec.startswith('X:'):
+            spec, seqref = spec[2:], '"seq"'
         if spec == 'NOSORT':
             attrs = []
         elif spec.startswith('EXPR:'):
@@ -187,8 +200,8 @@ def template(spec, mapping, reverse, batch, ktype):
             attrs.append('size=2 start=%d' % batch)
         body = '<dtml-var sequence-item>,' if ktype == 'plain-item' \
             else '<dtml-var id>,'
-        t = _t[key] = HTML('<dtml-in seq %s>%s</dtml-in>'
-                           % (' '.join(attrs), body))
+        t = _t[key] = HTML('<dtml-in %s %s>%s</dtml-in>'
+                           % (seqref, ' '.join(attrs), body))
     return t
 
 
@@ -207,14 +220,35 @@ def show(ktype, syms):
     return [repr(DOMAINS[ktype][s]) for s in syms]
 
 
-def render(ktype, syms, spec, mapping, reverse, batch):
+def rotate_keys(seq, keys, mapping):
+    """moves every element's key attributes to the next element, in place
+    (the same objects, in the same list) -> the new keys"""
+    def kd(e):
+        d = e if mapping else e.__dict__
+        return {a: d[a] for a in ('k', 'k2') if a in d}
+    olds = [kd(e) for e in seq]
+    for i, e in enumerate(seq):
+        d = e if mapping else e.__dict__
+        for a in ('k', 'k2'):
+            d.pop(a, None)
+        d.update(olds[i - 1])
+    return [keys[i - 1] for i in range(len(seq))]
+
+
+def render(ktype, syms, spec, mapping, reverse, batch, again=False):
     seq, keys = build(ktype, syms, mapping)
     snap = list(seq)
     kw = {'seq': seq}
-    if spec.startswith('EXPR:'):
-        kw['sk'] = spec[5:]
+    if 'EXPR:' in spec:
+        kw['sk'] = spec.split('EXPR:')[1]
+    t = template(spec, mapping, reverse, batch, ktype)
     try:
-        out = template(spec, mapping, reverse, batch, ktype)(**kw)
+        out = t(**kw)
+        if again:
+            # the same template, the same list object, the same element
+            # objects - but their keys have changed in the meantime
+            keys = rotate_keys(seq, keys, mapping)
+            out = t(**kw)
     except Exception as e:
         return e, keys, True
     ids = [int(x) for x in out.split(',') if x != '']
@@ -237,7 +271,8 @@ def judge_one(res, ktype, syms, spec, mapping):
                     'spec': spec, 'mapping': mapping}
             desc = {'keys': show(ktype, syms), 'spec': spec,
                     'mapping': mapping, 'reverse': reverse, 'batch': batch}
-            tag = '%s:%s' % (ktype, spec.replace('EXPR:', 'expr='))
+            tag = '%s:%s' % (ktype, spec.replace('EXPR:', 'expr=').replace(
+                'X:', 'seqexpr:'))
 
             def bad(clause, extra=None, sigx=''):
                 d = dict(desc)
@@ -291,6 +326,16 @@ def judge_one(res, ktype, syms, spec, mapping):
                         else:
                             continue
                         break
+                    if ktype not in ('tuple-item', 'plain-item') and n >= 2:
+                        got2, keys2, _u = render(ktype, syms, spec, mapping,
+                                                 0, 0, again=True)
+                        if isinstance(got2, BaseException) or \
+                                sorted(got2) != list(range(n)) or any(
+                                    (compare(keys2[a], keys2[b], fields)
+                                     or 0) > 0
+                                    for a, b in zip(got2, got2[1:])):
+                            got = got2
+                            bad('order-after-key-change')
                 else:
                     if base is not None and got != base[::-1]:
                         bad('reverse', base[::-1])
@@ -318,9 +363,9 @@ def run(case):
             if ktype == 'plain-item' and mapping:
                 continue
             judge_one(res, ktype, syms, spec, mapping)
-            ev += 6
+            ev += 7
             if n >= 2:
-                nt += 6
+                nt += 7
                 if res.sample is None:
                     res.sample = {'keys': show(ktype, syms), 'spec': spec,
                                   'mapping': mapping,
